@@ -37,6 +37,7 @@ def units(tier):
         us.append(Unit(H.InterchangeLevelFromFilename, {'n': n}))
     us += HA.family(tier)
     us.append(Unit(H.OpenConverts))
+    us.append(Unit(H.OpenHybridGlue))      # seeks to 64-bit positions read from the image (backup GPT)
     us += [Unit(H.ScannerStep), Unit(H.DirectoryReadPrefix)]
     for d in (1, 2, 3):
         us.append(Unit(H.ScannerEnqueue, {'depth': d}))
@@ -58,7 +59,7 @@ META = {}
 
 META = {
     'assumptions': [
-        'modular reading of C15: every parser may raise the documented classes or a member of the malformed-input family M = {struct.error, IndexError, KeyError, UnicodeDecodeError, ValueError}; PyCdlib.open/open_fp convert M to PyCdlibInvalidISO (OpenConverts, with the parser contracts as the callee contract of _open_fp)',
+        'modular reading of C15: every parser may raise the documented classes or a member of the malformed-input family M = {struct.error, IndexError, KeyError, UnicodeDecodeError, ValueError, OverflowError}; PyCdlib.open/open_fp convert M to PyCdlibInvalidISO (OpenConverts, with the parser contracts as the callee contract of _open_fp)',
         'parser inputs: completely unconstrained bytes; lengths are enumerated (each structure: its struct size and one byte less in quick; 0 and size+1 added in thorough); behaviour for other lengths follows by uniformity of unpack_from at offset 0 (not machine-checked)',
         'text decoding of arbitrary bytes (utf-8 / utf-16 / ascii) is uninterpreted: it either fails with UnicodeDecodeError or yields opaque text',
         'nested parse calls are inlined (checked through their bodies), except VolumeDescriptorDate.parse inside the volume descriptor parser and DirectoryRecord.parse inside the directory scanner, which are used through their own contracts',
@@ -68,7 +69,7 @@ META = {
         'RockRidge.parse and the Rock Ridge entry loop, _parse_udf_descriptors / _walk_udf_directories glue, _check_for_eltorito_boot_info_table, isohybrid secondary GPT reads: not under contract (their structure parsers are)',
         'memory proportional to the input is proved only for the directory read; other reads use sizes taken from the image (path table size, continuation area length) through file reads, which return at most what the file holds',
     ],
-    'bounded': ['OpenCorruptedImage: 8 images x 40 (quick) / 600 (thorough) random corruptions or truncations opened by the real library under CPython (bounded run-time contract, not counted as proved)'],
+    'bounded': ['OpenCorruptedImage: 12 images (ISO9660, Rock Ridge, Joliet, UDF, El Torito, EFI and Mac hybrids, a bridge image with all namespaces) x 40 (quick) / 600 (thorough) corruptions of bytes that carry structure (non-zero bytes and their neighbours in the first 400 and the last two sectors) or truncations opened by the real library under CPython (bounded run-time contract, not counted as proved)'],
 }
 
 MANIFEST = {
